@@ -1,20 +1,254 @@
-import KcpVerif.Model.Kcp
-/-! C10 — no datagram exceeds the configured MTU; accepted MTUs are safe (core half). -/
+import KcpVerif.Lemmas.SessOut
+/-!
+C10 (session half) — no datagram exceeds the configured MTU; accepted MTUs are safe.
+
+The core half (`flush` never hands the output callback more than the core's mtu, nor an empty
+packet) is proved on the core model elsewhere; here it is the hypothesis `size ≤ core mtu` /
+`body.length ≤ core mtu`.  External primitives enter through `LenLaws` (block ciphers keep the
+length, AEAD Seal adds exactly `Overhead()`, an entropy Read yields 16 bytes).
+-/
 namespace KcpVerif.Props
-open KcpVerif KcpVerif.Gen KcpVerif.Kcp
+open KcpVerif KcpVerif.Gen KcpVerif.Wire KcpVerif.SessOut
 
-/-- `makeSpace` keeps the pending bytes within the MTU whenever the request fits one -/
-theorem C10_makeSpace_fits (f : Fl) (space : Nat) (hs : space ≤ f.k.mtu.toNat) (hc : f.cur.length ≤ f.k.mtu.toNat) :
-    (f.makeSpace space).cur.length + space ≤ f.k.mtu.toNat ∧ (f.makeSpace space).k = f.k := by
-  unfold Fl.makeSpace
-  split
-  · simp; exact hs
-  · constructor
-    · omega
-    · rfl
+/-- `UDPSession.SetMtu m` hands the core `min 1500 m − headerSize − aeadOverhead` and is accepted iff
+the core accepts; every core accepts only values above `IKCP_OVERHEAD`.  For an accepted `m`, whatever
+the cipher/FEC combination: the core MTU exceeds 24; every output of `size ≤ core mtu` bytes becomes a
+datagram of `size + headerSize + overhead ≤ min 1500 m` bytes; the pooled buffer `Get()[:size+headerSize]`
+(capacity `mtuLimit`) is never exceeded and leaves room for the AEAD tag (the capacity test of the
+AEAD wrapper succeeds). -/
+theorem C10_session_mtu_arith (c : Cfg) (coreOk : Int → Bool)
+    (hcore : ∀ x, coreOk x = true → (IKCP_OVERHEAD : Int) < x) (cur : Nat) (m : Int)
+    (hacc : (setMtu c coreOk cur m).ok = true) :
+    let mtu := (setMtu c coreOk cur m).coreMtu
+    IKCP_OVERHEAD < mtu ∧ (mtu : Int) = min (mtuLimit : Int) m - c.headerSize - c.overhead ∧
+    ∀ size, size ≤ mtu →
+      ((size + c.headerSize + c.overhead : Nat) : Int) ≤ min (mtuLimit : Int) m ∧
+      size + c.headerSize + c.overhead ≤ mtuLimit ∧ outputCb c size ≠ .panic := by
+  intro mtu
+  have hk : coreOk (coreMtuArg c m) = true := by
+    by_cases h : coreOk (coreMtuArg c m) = true
+    · exact h
+    · simp [setMtu, h] at hacc
+  have hgt := hcore _ hk
+  have hm : mtu = (coreMtuArg c m).toNat := by simp only [mtu, setMtu, hk, if_true]
+  have harg : coreMtuArg c m = min (mtuLimit : Int) m - c.headerSize - c.overhead := rfl
+  have hcast : ((coreMtuArg c m).toNat : Int) = coreMtuArg c m := Int.toNat_of_nonneg (by simp only [IKCP_OVERHEAD] at hgt; omega)
+  have hmin : min (mtuLimit : Int) m ≤ mtuLimit := Int.min_le_left _ _
+  refine ⟨?_, by rw [hm, hcast, harg], ?_⟩
+  · rw [hm]; simp only [IKCP_OVERHEAD] at hgt ⊢; omega
+  · intro size hs
+    have h1 : ((size + c.headerSize + c.overhead : Nat) : Int) ≤ min (mtuLimit : Int) m := by
+      rw [hm] at hs; omega
+    have hle : size + c.headerSize + c.overhead ≤ mtuLimit := by have := Int.le_trans h1 hmin; omega
+    refine ⟨h1, hle, ?_⟩
+    simp only [outputCb]
+    split
+    · intro h; cases h
+    · rw [if_neg (by omega)]; intro h; cases h
 
-/-- a value at or below the header size is refused and changes nothing -/
-theorem C10_setMtu_refuses_small (k : Kcp) (m : Int) (h : m ≤ (IKCP_OVERHEAD : Int)) : setMtu k m = (k, -1) := by
-  unfold setMtu; simp [h]
+/-- with the original core, acceptance is exactly `min 1500 m − headerSize − overhead > 24`; a refused
+value leaves the core MTU unchanged -/
+theorem C10_session_mtu_accept_iff (c : Cfg) (cur : Nat) (m : Int) :
+    ((setMtu c coreAcceptsOrig cur m).ok = true ↔
+      (IKCP_OVERHEAD : Int) < min (mtuLimit : Int) m - c.headerSize - c.overhead) ∧
+    ((setMtu c coreAcceptsOrig cur m).ok = false → (setMtu c coreAcceptsOrig cur m).coreMtu = cur) := by
+  simp only [setMtu, coreAcceptsOrig, coreMtuArg]
+  by_cases h : (IKCP_OVERHEAD : Int) < min (mtuLimit : Int) m - c.headerSize - c.overhead
+  · simp [h]
+  · simp [h]
+
+/-- the repaired core refuses more values, never accepts new ones, so the previous theorem's
+hypothesis `hcore` holds for both -/
+theorem C10_session_core_rules (maxq : Nat) (x : Int) :
+    (coreAcceptsOrig x = true → (IKCP_OVERHEAD : Int) < x) ∧
+    (coreAcceptsFixed maxq x = true → (IKCP_OVERHEAD : Int) < x) := by
+  simp only [coreAcceptsOrig, coreAcceptsFixed, Bool.and_eq_true, decide_eq_true_eq]
+  exact ⟨id, fun h => h.1.1⟩
+
+/-- the default MTU is accepted for every cipher with header + overhead < 1376, in particular for all
+configurations the package can build (non-vacuity: `panic("Overhead too large")` is unreachable) -/
+example : ∀ ci ∈ [Cipher.none, .block, .aead 12 16], ∀ fec ∈ [(0, 0), (10, 3)],
+    (setMtu { cipher := ci, d := fec.1, p := fec.2 } coreAcceptsOrig 0 IKCP_MTU_DEF).ok = true := by decide
+
+/-! ### datagram lengths -/
+
+/-- a session's `headerSize` counts the FEC header iff it has an encoder -/
+def Consistent {γ : Type} (c : Cfg) (st : PP γ) : Prop := st.enc.isSome = c.fecOn
+
+/-- every original (non-parity) datagram of a request has length `headerSize + |body| + overhead`;
+every parity datagram has the length of the longest data packet of its group (+ overhead) -/
+theorem C10_session_dgram_len {γ : Type} (P : Prims γ) (c : Cfg) (L : LenLaws P c) (st : PP γ) (r : Req)
+    (hcons : Consistent c st) :
+    ∀ em ∈ (ppStep P c st r).emits,
+      (em.pkt.kind ≠ .parity → em.wire.length = c.headerSize + r.body.length + c.overhead) ∧
+      (em.pkt.kind = .parity → ∃ e, st.enc = some e ∧ r.oob = false ∧
+         em.wire.length = newMax c.cryptBase e r.body + c.overhead) := by
+  intro em hem
+  obtain ⟨g', pkt, hp, rfl⟩ := mem_cryptAll P c _ _ em hem
+  rw [crypt_wire_length P c L, crypt_pkt]
+  cases henc : st.enc with
+  | none =>
+    have hf : c.fecOn = false := by simpa [Consistent, henc] using hcons.symm
+    simp only [fecStage, henc, List.mem_singleton] at hp
+    subst hp
+    simp only [Cfg.headerSize, hf]
+    exact ⟨fun _ => by simp, fun h => by cases h⟩
+  | some e =>
+    have hf : c.fecOn = true := by simpa [Consistent, henc] using hcons.symm
+    simp only [fecStage, henc] at hp
+    by_cases hoob : r.oob = true
+    · simp only [hoob, if_true, List.mem_singleton] at hp
+      subst hp
+      refine ⟨fun _ => ?_, fun h => by cases h⟩
+      simp only [encodeOOB, Cfg.headerSize, hf, if_true, List.length_append, fecHeader_length, sizeField_length,
+        fecHeaderSize, fecHeaderSizePlus2]
+      omega
+    · have hoob' : r.oob = false := by simpa using hoob
+      simp only [hoob', Bool.false_eq_true, if_false, List.mem_cons] at hp
+      have hl := encode_lengths P.parity c.cryptBase e r.body r.now maxFECEncodeLatency
+      rcases hp with hp | hp
+      · subst hp
+        refine ⟨fun _ => ?_, fun h => ?_⟩
+        · rw [hl.1]; simp only [Cfg.headerSize, hf, if_true, fecHeaderSizePlus2]; omega
+        · rw [encode_pkt] at h; cases h
+      · have hk : pkt.kind = .parity := by
+          by_cases hfull : e.cache.length + 1 = e.d
+          · by_cases hg : r.now - e.tsLatest < maxFECEncodeLatency
+            · rw [(encode_full_ok _ _ e r.body r.now _ hfull hg).2] at hp
+              obtain ⟨_, _, _, h1, _⟩ := mem_sealParities _ _ _ hp
+              exact h1
+            · rw [(encode_full_skip _ _ e r.body r.now _ hfull hg).2] at hp; cases hp
+          · rw [(encode_mid _ _ e r.body r.now _ hfull).2] at hp; cases hp
+        refine ⟨fun h => absurd hk h, fun _ => ⟨e, rfl, by simpa using hoob, ?_⟩⟩
+        have := hl.2 pkt hp
+        omega
+
+/-- the bound over a whole request sequence, MTU constant: if every request's packet fits the bound
+`B` (`headerSize + |body| ≤ B`) and so does the longest packet of the group that is open at the start
+("the MTU did not shrink since the first data packet of the group"), then EVERY datagram — data,
+OOB and parity — is at most `B + overhead` bytes. -/
+theorem C10_session_sizes {γ : Type} (P : Prims γ) (c : Cfg) (L : LenLaws P c) (B : Nat) :
+    ∀ (reqs : List Req) (st : PP γ), Consistent c st →
+      (∀ e, st.enc = some e → e.maxSize ≤ B) →
+      (∀ r ∈ reqs, c.headerSize + r.body.length ≤ B) →
+      ∀ em ∈ (postProcess P c st reqs).emits, em.wire.length ≤ B + c.overhead := by
+  intro reqs
+  induction reqs with
+  | nil => intro st _ _ _ em hem; cases hem
+  | cons r rs ih =>
+    intro st hcons hmax hreq em hem
+    have hr := hreq r (by simp)
+    simp only [postProcess, List.mem_append] at hem
+    rcases hem with hem | hem
+    · have := C10_session_dgram_len P c L st r hcons em hem
+      by_cases hk : em.pkt.kind = .parity
+      · obtain ⟨e, he, _, hlen⟩ := this.2 hk
+        have hf : c.fecOn = true := by simpa [Consistent, he] using hcons.symm
+        have : newMax c.cryptBase e r.body ≤ B :=
+          newMax_le _ _ _ _ (hmax e he) (by simp only [Cfg.headerSize, hf, if_true] at hr; omega)
+        omega
+      · rw [this.1 hk]; omega
+    · refine ih (ppStep P c st r).st ?_ ?_ (fun r' hr' => hreq r' (by simp [hr'])) em hem
+      · -- the encoder stays present / absent
+        show (fecStage P c st.enc r).1.isSome = c.fecOn
+        rw [← hcons]
+        cases st.enc with
+        | none => rfl
+        | some e => simp only [fecStage]; split <;> rfl
+      · intro e' he'
+        simp only [ppStep, fecStage] at he'
+        cases henc : st.enc with
+        | none => rw [henc] at he'; cases he'
+        | some e =>
+          rw [henc] at he'
+          have hf : c.fecOn = true := by simpa [Consistent, henc] using hcons.symm
+          by_cases hoob : r.oob = true
+          · simp only [hoob, if_true, Option.some.injEq] at he'
+            rw [← he']; exact hmax e henc
+          · have hoob' : r.oob = false := by simpa using hoob
+            simp only [hoob', Bool.false_eq_true, if_false, Option.some.injEq] at he'
+            rw [← he']
+            have hB : newMax c.cryptBase e r.body ≤ B :=
+              newMax_le _ _ _ _ (hmax e henc) (by simp only [Cfg.headerSize, hf, if_true] at hr; omega)
+            rcases encode_maxSize P.parity c.cryptBase e r.body r.now maxFECEncodeLatency with h | h <;> omega
+
+/-- composition with `C10_session_mtu_arith`: under an accepted MTU `m`, constant over the request
+sequence, with the core's outputs at most the core MTU, no datagram exceeds `min 1500 m`. -/
+theorem C10_session_no_datagram_exceeds_mtu {γ : Type} (P : Prims γ) (c : Cfg) (L : LenLaws P c) (coreOk : Int → Bool)
+    (hcore : ∀ x, coreOk x = true → (IKCP_OVERHEAD : Int) < x) (cur : Nat) (m : Int)
+    (hacc : (setMtu c coreOk cur m).ok = true) (reqs : List Req) (st : PP γ) (hcons : Consistent c st)
+    (hgroup : ∀ e, st.enc = some e → e.maxSize ≤ c.headerSize + (setMtu c coreOk cur m).coreMtu)
+    (hreq : ∀ r ∈ reqs, r.body.length ≤ (setMtu c coreOk cur m).coreMtu) :
+    ∀ em ∈ (postProcess P c st reqs).emits, (em.wire.length : Int) ≤ min (mtuLimit : Int) m := by
+  intro em hem
+  have ha := C10_session_mtu_arith c coreOk hcore cur m hacc
+  have := C10_session_sizes P c L (c.headerSize + (setMtu c coreOk cur m).coreMtu) reqs st hcons hgroup
+    (fun r hr => by have := hreq r hr; omega) em hem
+  have h2 := (ha.2.2 _ (Nat.le_refl _)).1
+  omega
+
+/-! ### D11: parity after a shrink in mid group -/
+
+def d11Prims : Prims Nat :=
+  { crc := fun _ => 0, parity := fun _ _ => [], draw := fun g => { g := g + 1, out := List.replicate 16 0 },
+    encB := id, decB := id, aseal := fun _ x => x, aopen := fun _ x => some x }
+
+/-- WITHOUT the hypothesis "the MTU did not shrink since the first data packet of the group" the
+bound is false: FEC 2/1 without cipher, `SetMtu(100)` (core 92), a full-size packet (datagram of
+100 bytes), then `SetMtu(60)` — accepted, nothing is queued in the core — and a full-size packet
+for the new MTU (60 bytes) closes the group: the parity datagram is 100 bytes > 60. -/
+theorem C10_session_parity_after_shrink_counterexample :
+    let c : Cfg := { cipher := .none, d := 2, p := 1 }
+    let m1 := setMtu c coreAcceptsOrig 0 100
+    let o1 := ppStep d11Prims c { enc := newEnc c, gen := 0 } { oob := false, body := List.replicate m1.coreMtu 7, now := 1000 }
+    let m2 := setMtu c coreAcceptsOrig m1.coreMtu 60
+    let o2 := ppStep d11Prims c o1.st { oob := false, body := List.replicate m2.coreMtu 7, now := 1001 }
+    m1.ok = true ∧ m2.ok = true ∧ (∀ em ∈ o1.emits, em.wire.length ≤ 100) ∧
+    ∃ em ∈ o2.emits, em.pkt.kind = .parity ∧ em.wire.length = 100 ∧ 60 < em.wire.length := by
+  decide
+
+/-! ### out-of-band sizes -/
+
+/-- `SendOOB` accepts iff `4 + |data| ≤ core mtu` (FEC on); `GetOOBMaxSize = core mtu − 4`; the
+queued body is `conv ‖ data` -/
+theorem C10_session_oob_size (c : Cfg) (coreMtu : Nat) (conv : BitVec 32) (data : Bytes) (hf : c.fecOn = true) :
+    ((∃ b, sendOOB c coreMtu conv data = .queued b) ↔ convSize + data.length ≤ coreMtu) ∧
+    (sendOOB c coreMtu conv data = .errTooLarge ↔ coreMtu < convSize + data.length) ∧
+    getOOBMaxSize c coreMtu = (coreMtu : Int) - convSize ∧
+    (∀ b, sendOOB c coreMtu conv data = .queued b → b = le32 conv ++ data ∧ b.length = convSize + data.length) := by
+  simp only [sendOOB, getOOBMaxSize, hf, Bool.not_true, Bool.false_eq_true, if_false]
+  refine ⟨?_, ?_, trivial, ?_⟩
+  · split <;> simp <;> omega
+  · split <;> simp <;> omega
+  · intro b; split
+    · intro h; cases h
+    · intro h; cases h; exact ⟨rfl, by simp [le32_length, convSize]⟩
+
+/-- the datagram of an accepted out-of-band message is at most `min 1500 m` bytes -/
+theorem C10_session_oob_dgram {γ : Type} (P : Prims γ) (c : Cfg) (L : LenLaws P c) (coreOk : Int → Bool)
+    (hcore : ∀ x, coreOk x = true → (IKCP_OVERHEAD : Int) < x) (cur : Nat) (m : Int)
+    (hacc : (setMtu c coreOk cur m).ok = true) (st : PP γ) (hcons : Consistent c st) (conv : BitVec 32) (data b : Bytes)
+    (now : Int) (hq : sendOOB c (setMtu c coreOk cur m).coreMtu conv data = .queued b) :
+    ∀ em ∈ (ppStep P c st { oob := true, body := b, now := now }).emits,
+      em.wire.length = c.headerSize + convSize + data.length + c.overhead ∧
+      (em.wire.length : Int) ≤ min (mtuLimit : Int) m := by
+  intro em hem
+  have hf : c.fecOn = true := by
+    by_cases h : c.fecOn = true
+    · exact h
+    · simp [sendOOB, h] at hq
+  have hs := C10_session_oob_size c (setMtu c coreOk cur m).coreMtu conv data hf
+  have hle := hs.1.1 ⟨b, hq⟩
+  have hb := (hs.2.2.2 b hq).2
+  have hd := C10_session_dgram_len P c L st _ hcons em hem
+  have hk : em.pkt.kind ≠ .parity := by
+    intro hk
+    obtain ⟨_, _, ho, _⟩ := hd.2 hk
+    cases ho
+  have hlen := hd.1 hk
+  simp only [hb] at hlen
+  have ha := C10_session_mtu_arith c coreOk hcore cur m hacc
+  have h2 := (ha.2.2 _ hle).1
+  exact ⟨by omega, by omega⟩
 
 end KcpVerif.Props
